@@ -20,13 +20,15 @@ class C16(C05):
             "Non-trivial: history with at least one refused operation on a non-empty database; distinct by history.")
 
     def gen_zero_cases(self):
-        # (the read-only frame on explicit zeros belongs to C05; here:) one very large batch - tens of thousands of fingerprints,
-        # as a whole library is added - whose single incompatible member sits anywhere, also far behind the first thousands
+        # (the read-only frame on explicit zeros belongs to C05; here:) one very large batch - tens to hundreds of thousands of
+        # fingerprints, as a whole library is added - whose single incompatible member sits anywhere, also far behind the first
+        # 2^14, 2^16 or 2^17 of them (the sizes at which a batch would plausibly be cut into blocks)
         rng = self.rng
-        for _ in range(2 if self.tier == "quick" else 12):
-            n = rng.choice([17000, 20000, 33000])
-            self.count("very-large-batch")
-            yield {"t": "bigbatch", "n": n, "pos": rng.choice([n - 1, n - 2, rng.randrange(16384, n), rng.randrange(n)]),
+        sizes = [20000, 66000, 70000, 131100] if self.tier == "quick" else [17000, 33000, 66000, 70000, 131100, 131100, 262200]
+        for k in range(3 if self.tier == "quick" else 14):
+            n = sizes[-1] if k == 0 and self.tier == "quick" else rng.choice(sizes)
+            self.count("very-large-batch:%d" % n)
+            yield {"t": "bigbatch", "n": n, "pos": rng.choice([n - 1, n - 2, n - 1 - rng.randrange(min(n, 64)), rng.randrange(n - n // 8, n), rng.randrange(n)]),
                    "fault": rng.choice(["bits", "level"]), "kind": rng.choice(["bit", "count"]), "pre": rng.choice([0, 3]), "seed": rng.randrange(10 ** 6)}
 
     def impl(self, case):
